@@ -248,9 +248,11 @@ def _dedup(vs, per_key=1):
 
 # ---- E2: concurrently outstanding executions -------------------------------------------
 def _live_job(args):
-    n, limit = args
+    n, limit = args[:2]
+    kind = args[2] if len(args) > 2 else "CC"
     A = dict(sel=1, side="BACK", price=2.2, size=5.0)
-    script = [(0, ["P", dict(A, price=round(2.2 + 0.2 * i, 2))]) for i in range(n)] + [(0, ["CC", [[0], [1]]])]
+    last = ["CC", [[0], [1]]] if kind == "CC" else ["RR", [[0, 3.0], [1, 3.2]]]
+    script = [(0, ["P", dict(A, price=round(2.2 + 0.2 * i, 2))]) for i in range(n)] + [(0, last)]
     viol, counts = [], {"clause:C18.a": 0, "live_quiescent": 0, "concurrent_outstanding": 0}
 
     def mk():
@@ -268,7 +270,9 @@ def _live_job(args):
                     continue
                 if c["method"] in ("placeOrders", "replaceOrders"):
                     exp += c["n"]
-                else:
+                if c["method"] == "replaceOrders":
+                    exp += sum(1 for r in c["reports"] if r["cancelInstructionReport"]["status"] == "FAILURE")
+                elif c["method"] != "placeOrders":
                     exp += sum(1 for r in c["reports"] if r["status"] == "FAILURE")
             got = w.client.transaction_count_total
             if got != exp or w.client.current_transaction_count_total != exp:
@@ -340,7 +344,7 @@ def run(tier):
         alpha = lambda dt, rich, lim=cfg["limits"]: alphabet(lim)
         c04.explore(rep, {"C18"}, alpha, tier, [cfg], depth_q=3, depth_t=4, dev_k_q=0, dev_k_t=0, horizon=0, run=_run)
     # E2
-    lj = [(2, None), (3, 1)] + ([(3, None), (4, None)] if thorough else [])
+    lj = [(2, None), (3, 1), (2, None, "RR")] + ([(3, None), (4, None)] if thorough else [])
     for r in core.pmap(_live_job, lj, chunk=1):
         rep.add_violations(r["violations"])
         rep.merge_counts(r["counts"])
